@@ -61,8 +61,13 @@ def run_cases(ctx, seed, n, only=None, path=None):
     rc, cases, err = vlib.harness_cases("c08", args)
     if rc != 0:
         raise vlib.BuildError("harness c08 exited %d: %s" % (rc, err[-2000:]))
+    UNJUDGED.extend(c for c in cases if not c["coq"])
+    cases = [c for c in cases if c["coq"]]
     rows = vlib.coq_eval_shards("c08-%d-%s" % (seed, "p" if path else "g"), HEADER, [c["coq"] for c in cases], shard=25)
     return cases, rows
+
+
+UNJUDGED = []   # cases the harness could not hand to the judge: ArcTo stored another arc than the requested one
 
 
 def describe(c, fl, seed, n):
@@ -71,6 +76,7 @@ def describe(c, fl, seed, n):
 
 def run(ctx):
     broken = []
+    del UNJUDGED[:]
     ok_tr, trlog = vlib.run_translator()
     if not ok_tr:
         broken.append("translator: " + trlog.strip()[-600:])
@@ -142,6 +148,20 @@ def run(ctx):
             nontrivial.add(key)
         inner += row[2]
 
+    # the builder stored another arc than requested (never on the unchanged tree): the exact model does not apply; the harness sampled
+    # the requested arc against Bounds/FastBounds itself
+    if UNJUDGED:
+        UNJUDGED.sort(key=lambda c: -c["desc"].get("requested_arc_outside_by", 0))
+        c = UNJUDGED[0]
+        out = c["desc"].get("requested_arc_outside_by", 0)
+        if out > 1e-6:
+            ctx.violation(dict(kind="property-fails-on-implementation", broken_obligations=broken, seed=seed, index=c["i"], n=n, family=c["fam"], input=c["desc"]),
+                          "a point of the requested arc lies %.6g outside Bounds/FastBounds on %s (ArcTo stored another arc than requested)" % (out, c["desc"].get("path")))
+        else:
+            ctx.violation(dict(kind="obligation-or-correspondence-broken", broken_obligations=broken, correspondence="harness c08: the arc stored by ArcTo is the generator's",
+                               seed=seed, index=c["i"], n=n, family=c["fam"], input=c["desc"],
+                               searched="%d cases with a changed arc: the requested arc stays inside Bounds and FastBounds in all of them" % len(UNJUDGED)),
+                          "ArcTo stored another arc than the one requested: %s" % str(c["desc"].get("builder_changed_arc"))[:200], found_input=False)
     reported, new_prop = set(), []
     for c, fl in prop_fail:
         f = matches_known(c, fl)
